@@ -136,7 +136,7 @@ CHECKS["C05"] = {
     "rule": "a generated history (with Prune requests to the partial forest; partial forest 'direct' in half of the cases: Modify without Verify(remember) when the deleted leaves are already cached) builds the state in Stump, Pollard, a full and a partial MapPollard (generated TotalRows) and a light client's cached proof; "
             "then one block deletes a generated live target set (shapes as in C02) whose proof is encoded as: canonical / targets+hashes permuted in parallel / "
             "1-3 junk hashes appended / assembled by AddProof from two (possibly overlapping) honest proofs / cut by GetProofSubset from a larger honest proof / "
-            "cut from the cached proof maintained by Proof.Update; followed by 0..k additions and optionally one honest follow-up block. Precondition checked, "
+            "cut from the cached proof maintained by Proof.Update; followed by 0..k additions and optionally one honest follow-up block - or, in a quarter of the cases, the accepted block is undone on every forest (a full map forest from a targets-only record) and another honest block drawn on the state before it is applied instead. Precondition checked, "
             "not assumed: Verify accepts and the targets are distinct positions of live leaves with their hashes (failures counted per encoding). In half of the cases the very same slices (no copies) are handed to all four implementations, in a drawn order. Oracle: "
             "Stump.Update, Pollard.Modify, MapPollard Verify(remember)+Modify all succeed and end with the model's roots and leaf count. Non-trivial: "
             "encoding other than canonical and >=2 targets.",
